@@ -4,7 +4,7 @@ var props = map[string]PropSpec{}
 
 func init() {
 	props["C03"] = PropSpec{
-		Title: "Saving then opening a document loses nothing the library can express",
+		Title:       "Saving then opening a document loses nothing the library can express",
 		Explanation: "Decides the structural clause 'the hand-written reader covers the struct-tag driven writer': for every struct reachable from the body element kinds, every element field has a reader case for its local name that stores into that field, every attribute field is filled from the attribute of the same name, every body element kind the API can append is constructed by the reader, and hand-written MarshalXML methods pass every tagged field to the encoder. A necessary condition of the round trip, not the round trip itself.",
 		NotDecided:  "value-level fidelity (whitespace inside w:t, numeric formatting), cycle stability beyond reader ⊇ writer",
 		Rules: []Rule{
@@ -34,4 +34,9 @@ func init() {
 func init() {
 	props["C06"] = PropSpec{Title: "open", Explanation: "tmp", Rules: []Rule{{"loop-token", "f", ruleLoopToken}, {"recursion", "a", ruleReaderRecursion}, {"init-body", "i", ruleInitBody}}}
 	props["C04"] = PropSpec{Title: "nondestructive", Explanation: "tmp", Rules: []Rule{{"run-container", "f", ruleRunContainer}}}
+}
+
+func init() {
+	props["C07"] = PropSpec{Title: "indep", Explanation: "tmp", Rules: []Rule{{"global-state", "f", func(r *Run) { ruleGlobalState(r, nil) }}}}
+	props["C17"] = PropSpec{Title: "pure", Explanation: "tmp", Rules: []Rule{{"lock", "f", ruleLock}, {"publish", "p", rulePublishImmut}, {"render-pure", "p", ruleRenderPure}}}
 }
